@@ -554,7 +554,19 @@ func rulePairAlive(w *World, r *RuleResult) {
 			}
 			d.add(len(deltas) == 1 && deltas[0] == -1, key+"/living--", c.posOf(s.e), "paired with living count - 1", fmt.Sprintf("warrior marked dead but living count changes by %v on this path", deltas))
 			empty := hasCond(s.p, func(a *T, v bool) bool {
-				return a.Op == "eq" && v && a.A[1].IsConstVal(0) && a.A[0].Op == "call" && c.a.QLen != nil && a.A[0].S == fnKey(c.a.QLen)
+				isLen := func(t *T) bool {
+					t = stripConv(t)
+					return t.Op == "call" && c.a.QLen != nil && t.S == fnKey(c.a.QLen)
+				}
+				switch {
+				case a.Op == "eq" && v && a.A[1].IsConstVal(0) && isLen(a.A[0]):
+					return true
+				case a.Op == "lt" && !v && a.A[0].IsConstVal(0) && isLen(a.A[1]): // !(0 < len)
+					return true
+				case a.Op == "lt" && v && isLen(a.A[0]) && a.A[1].IsConstVal(1): // len < 1
+					return true
+				}
+				return false
 			})
 			d.add(empty, key+"/queue-empty", c.posOf(s.e), "death exactly when the queue is empty after execution", "warrior marked dead on a path that does not establish an empty process queue")
 		case "WarriorAdded":
